@@ -175,6 +175,44 @@ impl<'a> Gen<'a> {
         }
     }
 
+    /// Replaces every scalar leaf of a document (object keys stay): with `null`
+    /// (tags and other strings stay) or with pairwise *distinct* strings, so that
+    /// a report pointing at the wrong sibling quotes a value that is not there.
+    fn saturate(d: &Doc, distinct_strings: bool, ctr: &mut usize) -> Doc {
+        match d {
+            Doc::Seq(v) => Doc::Seq(v.iter().map(|x| Self::saturate(x, distinct_strings, ctr)).collect()),
+            Doc::Obj(m) => Doc::Obj(m.iter().map(|(k, x)| (k.clone(), Self::saturate(x, distinct_strings, ctr))).collect()),
+            Doc::Str(_) if !distinct_strings => d.clone(),
+            _ => {
+                if distinct_strings {
+                    *ctr += 1;
+                    Doc::Str(format!("sat{ctr}"))
+                } else {
+                    Doc::Null
+                }
+            }
+        }
+    }
+
+    /// Saturated payloads: every leaf of a base faulty at once (faults at *every*
+    /// position of every container, whatever the fault bound).
+    pub fn saturated(&self, ty: &Ty) -> Vec<Doc> {
+        let mut out: Vec<Doc> = vec![];
+        // the dense base of every variant choice × two fillers
+        let nv = self.max_variants(ty, &mut vec![]);
+        for variant in 0..nv {
+            let mut cx = BaseCtx { set: 0, ctr: 0, variant, sparse: false };
+            let b = self.valid(ty, &mut cx, 0);
+            for distinct in [false, true] {
+                let d = Self::saturate(&b, distinct, &mut 0);
+                if !out.contains(&d) {
+                    out.push(d);
+                }
+            }
+        }
+        out
+    }
+
     /// Base payloads: one per variant choice × two leaf-value sets × dense/sparse.
     pub fn bases(&self, ty: &Ty) -> Vec<Doc> {
         let nv = self.max_variants(ty, &mut vec![]);
@@ -556,6 +594,13 @@ impl<'a> Gen<'a> {
             frontier_start = frontier_end;
             if capped {
                 break;
+            }
+        }
+        // saturated payloads (every leaf faulty at once) are states of their own, not expanded further
+        for b in self.saturated(ty) {
+            let c = b.canonical();
+            if seen.insert(c.text()) {
+                states.push((c, 0));
             }
         }
         Closure { states, transitions, capped }
